@@ -313,3 +313,12 @@ pub fn uf_mul_assign_t<'a: 'a>(s: &mut TwoFloat, r: &'a TwoFloat) {
     let v = unsafe { T_MULASSIGN.call(key, fresh) };
     *s = r2(v);
 }
+
+/// compound assignment with an f64 right-hand side as a UF
+pub static mut T_ASSIGN_F: Table<3, 2> = Table::new();
+pub fn uf_assign_f<'a: 'a>(s: &mut TwoFloat, r: &'a f64) {
+    let key = k3(*s, *r);
+    let fresh = fresh2();
+    let v = unsafe { T_ASSIGN_F.call(key, fresh) };
+    *s = r2(v);
+}
